@@ -479,7 +479,7 @@ class Engine:
                 env[nm] = v
         return zb(eval(k['region'], env))
 
-    def oblige(self, kind, label, cond, detail='', timeout_ms=None):
+    def oblige(self, kind, label, cond, detail='', timeout_ms=None, last_resort=True):
         """Prove pc => cond now; record result."""
         regs = self._kf_regions(kind, label)
         if regs:
@@ -521,6 +521,11 @@ class Engine:
                 finally:
                     self.solver.set('timeout', self.query_timeout_ms)
                 ob.backend = 'z3'
+            if r == z3.unknown and last_resort and self.oneshot:
+                # nothing else will look at this obligation again: one long one-shot attempt, so that a loaded machine
+                # does not turn a 20 s proof into `undecided`
+                r, m = self._check_fresh(self.slow_timeout_ms, z3.Not(c))
+                ob.backend = 'z3-oneshot'
             extra_defs = []
             if r == z3.sat and sym.MUL_UF[0]:
                 # products were abstracted by an uninterpreted function: re-examine with their exact definitions
@@ -571,7 +576,7 @@ class Engine:
             c = z3.simplify(c)
             if not z3.is_true(c):
                 conds.append((n, c))
-        ob = self.oblige(kind, label, z3.And(*[c for _, c in conds]) if conds else z3.BoolVal(True), detail)
+        ob = self.oblige(kind, label, z3.And(*[c for _, c in conds]) if conds else z3.BoolVal(True), detail, last_resort=len(conds) <= 1)
         if ob.status == 'undecided' and len(conds) > 1:
             # split: decide every conjunct on its own
             if ob in self.obligations:
